@@ -17,6 +17,7 @@ import (
 	"verif/harness/internal/hpkex"
 	"verif/harness/internal/mon"
 	"verif/harness/internal/tap"
+	"verif/harness/internal/tlswire"
 )
 
 // stallCheck: the client delivers the first o bytes of its hello and then
@@ -48,6 +49,19 @@ func stallCheck(t *testing.T) {
 			hellos = append(hellos, hellogen.Plain(rng, po).HelloRecord(0x0301))
 		}
 	}
+	// a ClientHello split across records: the stall may hit a continuation fragment
+	{
+		o := echgen.DefaultOpts()
+		o.MaxExtra = 1
+		msg := echgen.Gen(rng, k, hpkex.AES256GCM, o).Outer.Message()
+		cut1, cut2 := len(msg)/3, 2*len(msg)/3
+		var fr []byte
+		for _, part := range [][]byte{msg[:cut1], msg[cut1:cut2], msg[cut2:]} {
+			fr = append(fr, tlswire.Record(22, 0x0301, part)...)
+		}
+		hellos = append(hellos, fr)
+		hellos = append(hellos, append(tlswire.Record(22, 0x0301, msg[:2]), tlswire.Record(22, 0x0301, msg[2:])...))
+	}
 	type job struct{ h, off int }
 	var jobs []job
 	for hi, h := range hellos {
@@ -65,7 +79,14 @@ func stallCheck(t *testing.T) {
 		var elapsed time.Duration
 		var err error
 		var sawDeadline, returned bool
+		deadlock := ""
 		ok := t.Run(fmt.Sprintf("stall-%d", ji), func(t *testing.T) {
+			// a deadlocked bubble (NewConn blocked for ever) panics on this goroutine: that is a verdict, not a crash
+			defer func() {
+				if p := recover(); p != nil {
+					deadlock = fmt.Sprint(p)
+				}
+			}()
 			synctest.Test(t, func(t *testing.T) {
 				tc := tap.New(nil)
 				tc.Feed(hellos[j.h][:j.off])
@@ -86,8 +107,8 @@ func stallCheck(t *testing.T) {
 		r.Eval(fmt.Sprintf("stall|%d|%d", j.h, j.off))
 		r.Count("stall_cases", 1)
 		switch {
-		case !ok || !returned:
-			r.Violate("stall", ji, "stall:newconn-did-not-return", "NewConn did not return although its context expired (deadlock in the bubble)", c)
+		case deadlock != "" || !ok || !returned:
+			r.Violate("stall", ji, "stall:newconn-did-not-return", "NewConn did not return although its context expired ("+deadlock+")", c)
 		case err == nil:
 			r.Violate("stall", ji, "stall:no-error", "NewConn returned success on a stalled, incomplete first record", c)
 		case elapsed > d:
